@@ -14,7 +14,7 @@
 EXTENDS JqHeap
 CONSTANTS Mode, MaxOps, Wide
 
-Fuel == 7
+Fuel == 40
 ObsNames == {"x", "y", "$"}
 Names == {"x", "y", "$", "v", "e"}
 Sems == {"I", "G0", "G1"}
@@ -186,13 +186,12 @@ ResTree(sem, st, res) == IF res.t = "missing" THEN Null ELSE TreeOf(sem, st, res
 -----------------------------------------------------------------------------
 (* spec-level laws on the intended semantics, evaluated on every step        *)
 Prefix(ss) == SubSeq(ss, 1, Len(ss) - 1)
-RefCount(st, id) ==
-  LET isR(v) == IsCont(v) /\ v.id = id
-      inC(c) == IF c.k = "array" THEN Cardinality({i \in 1..Len(c.items) : isR(c.items[i])})
-                ELSE Cardinality({k \in DOMAIN c.m : isR(c.m[k])})
-      RECURSIVE sum(_)
-      sum(i) == IF i = 0 THEN 0 ELSE inC(st.heap[i]) + sum(i - 1)
-  IN Cardinality({n \in Names : isR(st.env[n])}) + sum(Len(st.heap))
+IsRefTo(v, id) == IsCont(v) /\ v.id = id
+RefsIn(c, id) == IF c.k = "array" THEN Cardinality({i \in 1..Len(c.items) : IsRefTo(c.items[i], id)})
+                 ELSE Cardinality({k \in DOMAIN c.m : IsRefTo(c.m[k], id)})
+RECURSIVE RefSum(_, _, _)
+RefSum(heap, id, i) == IF i = 0 THEN 0 ELSE RefsIn(heap[i], id) + RefSum(heap, id, i - 1)
+RefCount(st, id) == Cardinality({n \in Names : IsRefTo(st.env[n], id)}) + RefSum(st.heap, id, Len(st.heap))
 NoSharing(st) == \A id \in 1..Len(st.heap) : RefCount(st, id) <= 1
 
 \* the deepest proper prefix of p that resolves to an existing container
